@@ -4,6 +4,11 @@ import json, os
 HERE = os.path.dirname(os.path.dirname(os.path.abspath(__file__)))
 ALL = ["C%02d" % i for i in range(1, 21)]
 CHECKS = {
+ "C18": dict(
+   technique="TLA+ spec Discovery.tla: every (directory tree, settings) pair is an initial state; the spec computes ExpectedIndexed from the property statement and TLC checks the staged computation (resolve globs, choose source dirs, list files) equals it; sampled pairs are built as real trees and a real server's workspace/symbol answer is compared with the spec state",
+   text="625 trees (4 directories x 5 suffix profiles incl. mixed-case and look-alike suffixes) x 192 settings (source_dirs unset/literal/recursive glob/name glob, excl_paths none/dir/dir/**/file, incl_suffixes, excl_suffixes, CLI or file): 1.5k sampled pairs in quick, 24k in thorough.",
+   note="Trusted: TLC, tree builder. A file counts as indexed iff its module is returned by workspace/symbol.",
+   design="4/C18"),
  "C10": dict(
    technique="TLA+ spec Workspace.tla (sync events over three files with content variants; reference: index = fresh index in every quiescent state; two named deviations must be refuted by TLC); TLC-enumerated and simulated histories replayed against a long-lived server whose full query battery is compared, in every quiescent state, with a fresh server on a copy of the directory",
    text="All histories of <=4 (quick) / <=5 (thorough) events over open/edit/save/close/create+open/delete+close/query plus simulated histories of 12; battery = documentSymbol, workspace/symbol, definition+hover at every identifier, completion at every %, references of every declaration, diagnostics.",
